@@ -20,10 +20,14 @@ pub fn run_c02(ctx: &Ctx) {
     run_l2_part(ctx, "l2", Prop::C02, P_C02, ctx.tier.scale(240_000, 10),
         &[("saturated", 0.5), ("limit-constrained", 0.2), ("race-done", 0.1)],
         "some quiescent state had a non-empty backlog with every worker at its limit (the limit constrained dispatch), or a finish-before-count race happened on a saturated worker");
+    run_l4_part(ctx, crate::l4::Prop::C02, crate::l4::gen::P { pause: 0, inject: 0, panic: 0, stop: 0, uds: false, max_limit: 3 }, ctx.tier.scale(400, 4), &[("saturated-with-waiting", 0.3)], "every worker at its limit with a client still waiting");
 }
 
 pub fn replay_c02(ctx: &Ctx, v: &Value) -> i32 {
-    replay_l2(ctx, v, Prop::C02)
+    match v["part"].as_str().unwrap_or("") {
+        p if p.starts_with("l4") => replay_l4(ctx, v, crate::l4::Prop::C02),
+        _ => replay_l2(ctx, v, Prop::C02),
+    }
 }
 
 // ---- C03 ---------------------------------------------------------------------------------------
@@ -68,10 +72,14 @@ pub fn run_c03(ctx: &Ctx) {
     run_l2_part(ctx, "l2", Prop::C03, P_C03, ctx.tier.scale(240_000, 10),
         &[("saturated", 0.5), ("finish-while-saturated-with-backlog", 0.15), ("race-done", 0.1)],
         "a connection finished on a worker that was at its limit while a client was waiting, followed by a quiescence check");
+    run_l4_part(ctx, crate::l4::Prop::C03, crate::l4::gen::P { pause: 0, inject: 0, panic: 0, stop: 0, uds: false, max_limit: 3 }, ctx.tier.scale(400, 4), &[("release-while-saturated", 0.3)], "a held connection is released while every worker is at its limit and a client waits");
 }
 
 pub fn replay_c03(ctx: &Ctx, v: &Value) -> i32 {
-    replay_l2(ctx, v, Prop::C03)
+    match v["part"].as_str().unwrap_or("") {
+        p if p.starts_with("l4") => replay_l4(ctx, v, crate::l4::Prop::C03),
+        _ => replay_l2(ctx, v, Prop::C03),
+    }
 }
 
 // ---- C04 ---------------------------------------------------------------------------------------
@@ -183,10 +191,14 @@ pub fn run_c05(ctx: &Ctx) {
     run_l2_part(ctx, "l2", Prop::C05, P_C05, ctx.tier.scale(200_000, 10),
         &[("pause", 0.4), ("inject-fatal", 0.2), ("inject-per-connection", 0.2), ("uds", 0.4)],
         "the schedule contains a pause or an injected accept error (fatal or per-connection)");
+    run_l4_part(ctx, crate::l4::Prop::C05, crate::l4::gen::P { pause: 3, inject: 3, panic: 0, stop: 0, uds: true, max_limit: 4 }, ctx.tier.scale(200, 4), &[("pause", 0.4), ("inject", 0.4)], "the script contains a pause or an injected accept error (exercises the real poll_with loop, which the stepped driver duplicates)");
 }
 
 pub fn replay_c05(ctx: &Ctx, v: &Value) -> i32 {
-    replay_l2(ctx, v, Prop::C05)
+    match v["part"].as_str().unwrap_or("") {
+        p if p.starts_with("l4") => replay_l4(ctx, v, crate::l4::Prop::C05),
+        _ => replay_l2(ctx, v, Prop::C05),
+    }
 }
 
 // ---- C08 ---------------------------------------------------------------------------------------
@@ -197,10 +209,14 @@ pub fn run_c08(ctx: &Ctx) {
     run_l2_part(ctx, "l2", Prop::C08, P_C08, ctx.tier.scale(200_000, 10),
         &[("fault-discovered", 0.4), ("replace", 0.3), ("late-finish-of-dead-worker", 0.1), ("kill-saturated", 0.05), ("kill-idle", 0.2)],
         "a kill followed by a connect + step that discovers the fault");
+    run_l4_part(ctx, crate::l4::Prop::C08, crate::l4::gen::P { pause: 0, inject: 0, panic: 4, stop: 0, uds: false, max_limit: 2 }, ctx.tier.scale(300, 4), &[("worker-panic", 0.3)], "a worker was killed by a panic inside Service::call (guards dropped while unwinding)");
 }
 
 pub fn replay_c08(ctx: &Ctx, v: &Value) -> i32 {
-    replay_l2(ctx, v, Prop::C08)
+    match v["part"].as_str().unwrap_or("") {
+        p if p.starts_with("l4") => replay_l4(ctx, v, crate::l4::Prop::C08),
+        _ => replay_l2(ctx, v, Prop::C08),
+    }
 }
 
 // ---- C01 (L2 part) -----------------------------------------------------------------------------
@@ -219,11 +235,13 @@ pub fn run_c01(ctx: &Ctx) {
         l3gen::c07_strategy,
         |c| crate::l3::run_case(c, crate::l3::Prop::C01),
     );
+    run_l4_part(ctx, crate::l4::Prop::C01, crate::l4::gen::P { pause: 1, inject: 0, panic: 0, stop: 0, uds: true, max_limit: 3 }, ctx.tier.scale(300, 4), &[("served-by>=2-workers", 0.3)], "connections were served by at least two worker threads or two listeners exist (each connection is served exactly once by the service of the listener it connected to)");
 }
 
 pub fn replay_c01(ctx: &Ctx, v: &Value) -> i32 {
     match v["part"].as_str().unwrap_or("") {
         p if p.starts_with("l3") => ctx.replay::<crate::l3::Case>(v, |c| crate::l3::run_case(c, crate::l3::Prop::C01)),
+        p if p.starts_with("l4") => replay_l4(ctx, v, crate::l4::Prop::C01),
         _ => replay_l2(ctx, v, Prop::C01),
     }
 }
@@ -277,12 +295,16 @@ pub mod l3gen {
             ],
             0..10,
         );
-        (1usize..3, prop::sample::select(vec![0u32, 1, 2, 5]), pre, prop_oneof![3 => Just(true), 1 => Just(false)], post, any::<bool>())
-            .prop_map(|(services, shutdown_timeout_s, mut ops, graceful, post, poll_first)| {
+        (1usize..3, prop::sample::select(vec![0u32, 1, 2, 5]), pre, prop_oneof![3 => Just(true), 1 => Just(false)], post, any::<bool>(), prop::bool::weighted(0.2))
+            .prop_map(|(services, shutdown_timeout_s, mut ops, graceful, post, poll_first, race)| {
                 if poll_first {
                     ops.push(Op::Poll);
                 }
-                ops.push(Op::Stop { graceful });
+                if race {
+                    ops.push(Op::DispatchStopRace { l: 0, graceful });
+                } else {
+                    ops.push(Op::Stop { graceful });
+                }
                 ops.extend(post);
                 Case { services, limit: 8, shutdown_timeout_s, factory_delay: vec![0; 3], initial: vec![SvcState::Ready; 3], ops }
             })
@@ -319,10 +341,14 @@ pub fn run_c06(ctx: &Ctx) {
         l3gen::c06_strategy,
         |c| l3::run_case(c, l3::Prop::C06),
     );
+    run_l4_part(ctx, crate::l4::Prop::C06, crate::l4::gen::P { pause: 1, inject: 0, panic: 0, stop: 1, uds: false, max_limit: 3 }, ctx.tier.scale(96, 4), &[("stop-with-held-connections", 0.4), ("graceful-stop", 0.3), ("forced-stop", 0.3)], "a stop was issued while connections were held open");
 }
 
 pub fn replay_c06(ctx: &Ctx, v: &Value) -> i32 {
-    ctx.replay::<crate::l3::Case>(v, |c| crate::l3::run_case(c, crate::l3::Prop::C06))
+    match v["part"].as_str().unwrap_or("") {
+        p if p.starts_with("l4") => replay_l4(ctx, v, crate::l4::Prop::C06),
+        _ => ctx.replay::<crate::l3::Case>(v, |c| crate::l3::run_case(c, crate::l3::Prop::C06)),
+    }
 }
 
 // ---- C09 / C10: actix-rt under real threads ----------------------------------------------------
@@ -359,4 +385,19 @@ pub fn run_c10(ctx: &Ctx) {
 
 pub fn replay_c10(ctx: &Ctx, v: &Value) -> i32 {
     ctx.replay::<crate::rt::C10Case>(v, crate::rt::check_c10)
+}
+
+// ---- L4: end-to-end through the public API -----------------------------------------------------
+
+const RULE_L4: &str = "L4: op scripts (connect a client that sends its id / release a held connection / settle = wait until the server has taken everything it has capacity for / pause / resume / inject an accept error / make the next Service::call panic / sleep / stop graceful|forced, once or twice, future polled or dropped) against a real Server (1..3 workers, limit 1..4, 1..2 listeners TCP/UDS, shutdown_timeout 1..2 s) with real threads and real time; the service counts connections in progress per worker thread, greets the client and holds the connection until released; time bounds of 5 s (re-judged twice alone before counting)";
+
+fn run_l4_part(ctx: &Ctx, prop: crate::l4::Prop, p: crate::l4::gen::P, cases: u64, floors: &[(&str, f64)], nt: &str) {
+    use crate::l4;
+    ctx.run_corpus::<l4::Case>("l4", |c| l4::run_case(c, prop));
+    let rule = format!("{RULE_L4}; non-trivial = {nt}");
+    ctx.run_random(Part::new("l4", &rule, cases).floors(floors).shards(8).shrink_iters(8), move || l4::gen::strategy(p), move |c| l4::run_case(c, prop));
+}
+
+fn replay_l4(ctx: &Ctx, v: &Value, prop: crate::l4::Prop) -> i32 {
+    ctx.replay::<crate::l4::Case>(v, |c| crate::l4::run_case(c, prop))
 }
